@@ -46,10 +46,13 @@ type gateBucket struct {
 	gated   bool
 	served  []string // log of served calls: key off len etag -> version label
 	clock   int
+	persist map[string]string // key -> fault mode applied to every read at/after the tile data offset
+	dups    []string          // identical header/directory reads that were in flight at the same time
+	nserved int
 }
 
 func newGate(gated bool) *gateBucket {
-	return &gateBucket{cur: map[string]*gversion{}, hist: map[string][]*gversion{}, gated: gated}
+	return &gateBucket{cur: map[string]*gversion{}, hist: map[string][]*gversion{}, gated: gated, persist: map[string]string{}}
 }
 
 func (g *gateBucket) put(name string, b []byte, label string) {
@@ -97,6 +100,13 @@ func (g *gateBucket) NewRangeReaderEtag(ctx context.Context, key string, offset,
 		g.mu.Lock()
 		c.id = g.next
 		g.next++
+		if g.isDirRead(key, offset, length) {
+			for _, o := range append(append([]*gcall{}, g.parked...), g.held...) {
+				if o.key == key && o.off == offset && o.length == length && o.etag == etag {
+					g.dups = append(g.dups, fmt.Sprintf("%s %d %d %s", key, offset, length, etag))
+				}
+			}
+		}
 		g.parked = append(g.parked, c)
 		g.mu.Unlock()
 		mode = <-c.release
@@ -115,9 +125,33 @@ func (g *gateBucket) NewRangeReaderEtag(ctx context.Context, key string, offset,
 	return r, tag, st, err
 }
 
+// header fetch or a read inside the current version's leaf-directory section (the cached kinds)
+func (g *gateBucket) isDirRead(key string, offset, length int64) bool {
+	if offset == 0 && length == 16384 {
+		return true
+	}
+	v := g.cur[key]
+	if v == nil || len(v.bytes) < 127 {
+		return false
+	}
+	h, err := pmtiles.DeserializeHeader(v.bytes[:127])
+	if err != nil {
+		return false
+	}
+	return uint64(offset) >= h.LeafDirectoryOffset && uint64(offset) < h.LeafDirectoryOffset+h.LeafDirectoryLength
+}
+
 func (g *gateBucket) readNow(key string, offset, length int64, etag string, mode string) (io.ReadCloser, string, int, error) {
 	g.mu.Lock()
 	defer g.mu.Unlock()
+	g.nserved++
+	if pm := g.persist[key]; pm != "" && mode == "ok" {
+		if v := g.cur[key]; v != nil && len(v.bytes) >= 127 {
+			if h, err := pmtiles.DeserializeHeader(v.bytes[:127]); err == nil && uint64(offset) >= h.TileDataOffset {
+				mode = pm
+			}
+		}
+	}
 	switch mode {
 	case "err":
 		return nil, "", 500, errors.New("injected bucket error")
@@ -405,6 +439,8 @@ type scriptResult struct {
 	notes   []string
 	faulted bool
 	gServed []string
+	runaway bool
+	dups    []string
 }
 
 func runScript(cacheMB int, ops []string, gated bool) scriptResult {
@@ -412,6 +448,9 @@ func runScript(cacheMB int, ops []string, gated bool) scriptResult {
 	w := newWorld(cacheMB, gated)
 	var res scriptResult
 	for i, op := range ops {
+		if res.runaway {
+			break // a request that keeps calling the bucket without ever finishing: report it as it is
+		}
 		w.opIdx = i
 		w.g.tick(i)
 		p := strings.Split(op, ":")
@@ -438,8 +477,22 @@ func runScript(cacheMB int, ops []string, gated bool) scriptResult {
 		case "R":
 			k, _ := strconv.Atoi(p[1])
 			w.g.deliver(k)
+		case "Z": // Z:<name>:<mode|ok>: every read of the archive's tile data fails this way from now on
+			w.g.mu.Lock()
+			if p[2] == "ok" {
+				delete(w.g.persist, p[1]+".pmtiles")
+			} else {
+				w.g.persist[p[1]+".pmtiles"] = p[2]
+				res.faulted = true
+			}
+			w.g.mu.Unlock()
 		case "A":
-			for w.g.nparked() > 0 || w.g.nheld() > 0 {
+			for n := 0; w.g.nparked() > 0 || w.g.nheld() > 0; n++ {
+				if n > 300 {
+					res.notes = append(res.notes, fmt.Sprintf("op %d: more than 300 bucket calls without the requests finishing (runaway)", i))
+					res.runaway = true
+					break
+				}
 				if w.g.nparked() > 0 {
 					w.g.serve(0, "ok")
 				} else {
@@ -455,9 +508,13 @@ func runScript(cacheMB int, ops []string, gated bool) scriptResult {
 	// drain: serve everything that is still parked, then wait for the requests (watchdog)
 	w.g.tick(len(ops))
 	deadline := time.Now().Add(4 * time.Second)
-	for time.Now().Before(deadline) {
+	for nd := 0; time.Now().Before(deadline); nd++ {
 		if w.finished() == len(w.reqs) {
 			break
+		}
+		if res.runaway || nd > 2000 {
+			res.runaway = true
+			break // leave the runaway request parked: it is reported as never completing
 		}
 		if gated && w.g.nparked() > 0 {
 			w.g.serve(0, "ok")
@@ -485,6 +542,7 @@ func runScript(cacheMB int, ops []string, gated bool) scriptResult {
 	res.hist = w.g.hist
 	w.g.mu.Lock()
 	res.gServed = append([]string{}, w.g.served...)
+	res.dups = append([]string{}, w.g.dups...)
 	w.g.mu.Unlock()
 	res.log = pmtiles.VerifTakeLog()
 	return res
@@ -553,6 +611,36 @@ func applyMod(b []byte, mod string) []byte {
 		b = make([]byte, n)
 		for k := range b {
 			b[k] = byte(k*37 + 11)
+		}
+	case mod == "nometa":
+		// drop the metadata section (zero-length metadata is legal with uncompressed internals)
+		if h, err := pmtiles.DeserializeHeader(b[:127]); err == nil && h.InternalCompression == pmtiles.NoCompression &&
+			h.LeafDirectoryOffset == h.MetadataOffset+h.MetadataLength && h.TileDataOffset == h.LeafDirectoryOffset+h.LeafDirectoryLength {
+			ml := h.MetadataLength
+			nb := append([]byte{}, b[:h.MetadataOffset]...)
+			nb = append(nb, b[h.MetadataOffset+ml:]...)
+			h.MetadataLength = 0
+			h.LeafDirectoryOffset -= ml
+			h.TileDataOffset -= ml
+			copy(nb, pmtiles.SerializeHeader(h))
+			b = nb
+		}
+	case strings.HasPrefix(mod, "size"):
+		// pad the (uncompressed) metadata with JSON whitespace so that the whole file has exactly N bytes:
+		// versions of equal size but different layout (what a size-based version tag cannot tell apart)
+		n, _ := strconv.Atoi(mod[4:])
+		if h, err := pmtiles.DeserializeHeader(b[:127]); err == nil && h.InternalCompression == pmtiles.NoCompression && n > len(b) &&
+			h.LeafDirectoryOffset == h.MetadataOffset+h.MetadataLength && h.TileDataOffset == h.LeafDirectoryOffset+h.LeafDirectoryLength {
+			delta := uint64(n - len(b))
+			end := h.MetadataOffset + h.MetadataLength
+			nb := append([]byte{}, b[:end]...)
+			nb = append(nb, bytes.Repeat([]byte{' '}, int(delta))...)
+			nb = append(nb, b[end:]...)
+			h.MetadataLength += delta
+			h.LeafDirectoryOffset += delta
+			h.TileDataOffset += delta
+			copy(nb, pmtiles.SerializeHeader(h))
+			b = nb
 		}
 	case strings.HasPrefix(mod, "corrupt"):
 		kv := strings.Split(mod[7:], "=")
